@@ -648,6 +648,9 @@ func (m c01) Run(c *core.Ctx) {
 	o := gen.Opts{MaxStmts: 26, MaxDepth: 4, ExprDepth: 3, Try: 0.3, Throw: 0.08, Funcs: 0.6, Shadow: 0.2, BuiltinShadow: 0.08, LogProb: 0.15,
 		Consts: 0.7, Globals: true, DeepRecursion: 20, Faults: 0.002}
 	for i := 0; i < n; i++ {
+		if stopExploring(c) {
+			break
+		}
 		o.Params = c.Rng.Intn(3)
 		o.Modules = 0
 		if c.Rng.Intn(4) == 0 {
